@@ -110,6 +110,16 @@ SPECS = {
         nontrivial=lambda src, ops: sum(1 for l in src if l.startswith("read")) >= 4,
         rule_nt="at least four reads",
     ),
+    "C08": dict(
+        title="var writes: program order, deferral during stabilise",
+        streams=[("writes", 2000, 50000, 35)],
+        proj=dict(keep_ops=("get", "replace", "replacewith", "isstable", "read"), keep_events=("inv", "effget", "effreplace"),
+                  sort_events=False),
+        oracle=O.oracle_vars, profiles=("debug",), dump=False,
+        nontrivial=lambda src, ops: any(e.startswith(("effget", "effreplace")) for o in ops for e in o.events)
+        or any("update:" in l or "set:" in l for l in src),
+        rule_nt="some node function, bind closure or handler wrote or read a variable",
+    ),
     "C09": dict(
         title="subscriptions",
         streams=[("subs", 2000, 40000, 40)],
